@@ -1,11 +1,13 @@
 mod common;
 mod c04;
+mod c14;
 
 fn main() {
     let argv: Vec<String> = std::env::args().collect();
     let args = common::Args::parse(&argv);
     let code = match args.prop.as_str() {
         "c04" => c04::run(&args),
+        "c14" => c14::run(&args),
         other => {
             eprintln!("unknown property worker: {other}");
             2
